@@ -182,6 +182,10 @@ structure St where
   /-- objects sitting in the channel's memory queue -/
   queued : List Nat
   conts : List Cont
+  /-- model parameter (never changed by a step; chosen from the tie `scan_shape_known`): the timeout scan
+  takes the message off the heap AND out of the in-flight map in one critical section
+  (fixes/scan_pop_atomic.patch); `false` = the older shape with a separate `popInFlightMessage` -/
+  scanAtomic : Bool := false
 
 inductive Step where
   | finPop (c : Int) (o : Nat)            -- popInFlightMessage in FinishMessage
@@ -296,10 +300,19 @@ def step (fixed : Bool) (s : St) : Step → Res
     match peekAndShift s.h t with
     | none => Res.panic
     | some (h, none) => Res.ok { s with h := h }
-    | some (h, some o) => Res.ok { s with h := h, conts := Cont.scanAfterPQPop o :: s.conts }
+    | some (h, some o) =>
+      if s.scanAtomic then
+        -- same critical section: only if the map still holds that very object, else the stale heap
+        -- entry is dropped and the scan exits
+        if o ∈ s.map then
+          Res.ok { s with h := h, map := s.map.erase o, conts := Cont.scanAfterPQPop o :: s.conts }
+        else Res.ok { s with h := h }
+      else Res.ok { s with h := h, conts := Cont.scanAfterPQPop o :: s.conts }
   | .scanPop o =>
     if Cont.scanAfterPQPop o ∈ s.conts ∧ Cont.emptyAfterInitPQ ∉ s.conts then
-      if o ∈ s.map then        -- popInFlightMessage(msg.clientID, msg.ID) always owns; then put(msg)
+      if s.scanAtomic then       -- already out of the map: TimedOutMessage, put(msg)
+        Res.ok { s with queued := o :: s.queued, conts := dropCont s.conts (Cont.scanAfterPQPop o) }
+      else if o ∈ s.map then     -- popInFlightMessage(msg.clientID, msg.ID) always owns; then put(msg)
         Res.ok { s with map := s.map.erase o, queued := o :: s.queued,
                         conts := dropCont s.conts (Cont.scanAfterPQPop o) }
       else Res.ok { s with conts := dropCont s.conts (Cont.scanAfterPQPop o) }
